@@ -70,6 +70,8 @@ class C18(Property):
     quick_cases = 1000
     thorough_cases = 9000
     design_ref = "DESIGN.md §6/C18"
+    proof_targets = ["theories/C18/Props.vo", "theories/C18/Pinned.vo", "theories/C18/GenProofs.vo",
+                     "theories/C18/ProofsCheck.vo"]
     level_text = ("Unbounded Rocq theorems over decision models with abstract cryptography (mac, RSA inverse pair, block "
                   "permutation E/D, base64 codec as Section variables with explicit hypotheses): the JWT gate calls the handler "
                   "iff the token's signature is the HMAC under the current or previous secret with an HS method and exp/nbf/iat "
